@@ -200,3 +200,9 @@ def rules(ctx: Ctx) -> None:
     from .common import import_rules as _imp04
 
     _imp04(ctx, "C13", {"R13.2": "R04.7"}, key_filter=lambda o: o.key.startswith("lookup-guards-whitelisted"))
+    # ---- R04.8 (= R05.3): the chain is the composition of the statements' own lineage - an extractor kept across statements adds an earlier
+    # statement's columns / set-operation barriers to a later one
+    _imp04(ctx, "C05", {"R05.3": "R04.8"}, key_filter=lambda o: o.key.startswith(("analyzer-state", "per-query-object")))
+    # ---- R04.9 (= R11.1 in the provider): the columns a script registers for a table keep the order of the script (an INSERT without column list is
+    # paired with them by position)
+    _imp04(ctx, "C11", {"R11.1": "R04.9"}, key_filter=lambda o: o.key.startswith("MetaDataProvider."))
